@@ -3,10 +3,14 @@
     refcount = number of references, and COPIED references are single (soundness of the independent checker);
 (2) exploration: every flushed snapshot of sampled histories (library-formatted and independently built images) is
     judged by that checker; get_mapping is compared with the specification reader."""
-import c10, common
+import c10, c06, common
 
 
 def run(tier, seed, replay):
     n = 60 if tier == 'quick' else 1500
     gate = common.proof_gate('C03', ['Spec/Entries.v', 'Spec/Image.v', 'Proofs/SpecProps.v', 'Props/C03.v'])
-    return c10.run_foreign('C03', tier, seed, ('valid', 'map'), n, 'Checker soundness theorems (Props/C03.v) + every flushed snapshot judged by the extracted specification checker validb; get_mapping vs the specification reader.', plain_n=(90 if tier == 'quick' else 1500), gate=gate)
+    rc = c10.run_foreign('C03', tier, seed, ('valid', 'map'), n, 'Checker soundness theorems (Props/C03.v) + every flushed snapshot judged by the extracted specification checker validb; get_mapping vs the specification reader.', plain_n=(90 if tier == 'quick' else 1500), gate=gate)
+    if rc != 0:
+        return rc
+    # concurrent histories: the file after the closing flush_meta must be valid too (evidence of this part replaces the first)
+    return c06.run_conc('C03', tier, seed, replay, extra={'sequential_part': 'passed (see the first check line)'}, gate0=gate)
